@@ -13,6 +13,7 @@ func init() { props["C14"] = runC14 }
 type metaIntent struct {
 	OGTitle, OGType, OGURL, OGImage, OGDesc, OGSite string
 	OGSection, OGPublished                          string
+	OGEarly                                         string // an article:* tag in front of everything, og:type included
 	Schema                                          bool
 	SHeadline, SURL, SDesc, SAuthor, SPublisher     string
 	SAuthorNested                                   bool
@@ -72,6 +73,11 @@ func (m metaIntent) HTML(body string) string {
 	}
 	var sb strings.Builder
 	head = append(head, tail...)
+	if m.OGEarly != "" {
+		// an article:* tag that precedes og:type; the article:* tags of the tail still follow the
+		// type, so the OpenGraph article record exists whatever is made of the early tag
+		head = append([]string{`<meta property="article:expiration_time" content="` + m.OGEarly + `">`}, head...)
+	}
 	sb.WriteString("<html><head>" + strings.Join(head, "\n") + "</head><body>\n")
 	sb.WriteString(strings.Join(bodyMeta, "\n"))
 	if m.IEByline != "" {
@@ -268,12 +274,15 @@ func randIntent(r *Rng, n int) metaIntent {
 		m.IEOptOut = r.Pick("true", "false", "TRUE", "True")
 	}
 	m.IEInBody = r.Chance(30)
+	if (m.OGSection != "" || m.OGPublished != "") && r.Chance(35) {
+		m.OGEarly = "2031-01-01"
+	}
 	return m
 }
 
 func runC14(ctx *Ctx) {
 	rep := ctx.Rep
-	rep.Rule = "pages carrying every combination of OpenGraph (complete / exactly one required property missing / article or other type), schema.org Article microdata (string and nested Person/Organization properties) and IE Reading View tags (in head or body, opt-out spellings), head order shuffled; distinct by which fields each source provides; non-trivial = two sources provide the same field, or OpenGraph is disqualified by exactly one missing property, or opt-out present"
+	rep.Rule = "pages carrying every combination of OpenGraph (complete / exactly one required property missing / article or other type), schema.org Article microdata (string and nested Person/Organization properties) and IE Reading View tags (in head or body, opt-out spellings), head order shuffled, in a third of the pages with an OpenGraph article record one article:* tag in front of og:type and the others after it; distinct by which fields each source provides; non-trivial = two sources provide the same field, or OpenGraph is disqualified by exactly one missing property, or opt-out present"
 	corr := newCorr("markup")
 	corrGate := newCorr("oggate")
 	corrIE := newCorr("iereader")
@@ -353,6 +362,11 @@ func runC14(ctx *Ctx) {
 		cmp("Publisher", got.Publisher, want.Publisher)
 		cmp("Copyright", got.Copyright, want.Copyright)
 		cmp("Author", got.Author, want.Author)
+		if m.OGEarly != "" && got.Article.ExpirationTime == m.OGEarly {
+			// whether an article:* tag in front of og:type counts is not part of the property
+			// (the parser's documented gate drops it); the rest of the record is
+			got.Article.ExpirationTime = ""
+		}
 		cmp("Article", showArticle(got.Article), showArticle(want.Article))
 		if strings.ToLower(m.IEOptOut) == "true" && len(got.Images) != 0 {
 			cmp("Images", fmt.Sprint(len(got.Images)), "0")
@@ -370,7 +384,7 @@ func runC14(ctx *Ctx) {
 		}
 		missingOne := m.OGTitle+m.OGType+m.OGURL+m.OGImage != "" && !ogUsable
 		if provided >= 2 || missingOne || m.IEOptOut != "" {
-			rep.nontrivial(fmt.Sprintf("%v|%v|%v|%v|%v|%v|%v|%v|%v|%v|%v", m.OGTitle != "", m.OGType, m.OGURL != "", m.OGImage != "", m.OGSection != "", m.Schema, m.SHeadline != "", m.SAuthor != "", m.IETitle != "", m.IEOptOut, m.IEInBody))
+			rep.nontrivial(fmt.Sprintf("%v|%v|%v|%v|%v|%v|%v|%v|%v|%v|%v|%v", m.OGTitle != "", m.OGType, m.OGURL != "", m.OGImage != "", m.OGSection != "", m.OGEarly != "", m.Schema, m.SHeadline != "", m.SAuthor != "", m.IETitle != "", m.IEOptOut, m.IEInBody))
 		}
 		rep.hist(fmt.Sprintf("sources=%d", len(srcs)))
 		rep.sample(map[string]interface{}{"intent": m, "info": fmt.Sprintf("%+v", got)})
